@@ -107,7 +107,7 @@ class Model:
             node = par
         return True
     def set_step(self, step):
-        self.ans.set_step(step); self.notes = []; self.lc = []; self.resolutions = []; self.exited_all = []
+        self.ans.set_step(step); self.notes = []; self.lc = []; self.resolutions = []; self.exited_all = []; self.random_cases = []; self.utility_cases = []
 
     # scripted answers; an anonymous head has no user callbacks (the director keeps them out of resolutions)
     def a_select(self, node):
@@ -230,12 +230,12 @@ class Model:
         if kd == 'O':
             for c in self.kids(node): self.request_utilize(c, idx)
             return
-        best = None
+        best = None; us = []
         for i, c in enumerate(self.kids(node)):
-            u = self.report_utilize(c)
+            u = self.report_utilize(c); us.append(u)
             if best is None or u > best[0]: best = (u, i)
         self.want[node] = best[1]
-        self.resolutions.append(('utility', node, best[1]))
+        self.resolutions.append(('utility', node, best[1])); self.utility_cases.append((node, us, best[1]))
     def request_randomize(self, node, idx=None):
         kd = self.kind(node)
         self.pin(node, idx)
@@ -252,7 +252,6 @@ class Model:
     def resolve_random(self, node, utils, ranks, top):
         s = tree_sum(utils)
         r = self.ans.rng(); cursor = f32(r * s)
-        self.random_cases.append((node, list(utils), list(ranks), top, r)) if hasattr(self, 'random_cases') else None
         last = None
         for i, u in enumerate(utils):
             if ranks[i] == top:
@@ -260,17 +259,18 @@ class Model:
                     cursor = f32(cursor - u)
                     if u > 0: last = i
                 else:
-                    self.resolutions.append(('random', node, i))
+                    self.resolutions.append(('random', node, i)); self.random_cases.append((node, list(utils), list(ranks), top, r, i))
                     return i
         self.notes.append('random-walk-fell-off')
         if 'random-none' in self.dev or last is None: return INVALID
-        self.resolutions.append(('random', node, last))
+        self.resolutions.append(('random', node, last)); self.random_cases.append((node, list(utils), list(ranks), top, r, last))
         return last
     def wide_report_change_util(self, node):
-        best = None
+        best = None; us = []
         for i, c in enumerate(self.kids(node)):
-            u = self.report_change(c)
+            u = self.report_change(c); us.append(u)
             if best is None or u > best[0]: best = (u, i)
+        self.utility_cases.append((node, us, best[1]))
         return best
     def ortho_mean(self, node, fn):
         vals = [fn(c) for c in self.kids(node)]
@@ -306,12 +306,12 @@ class Model:
         h = self.a_utility(node)
         if kd == 'O':
             return f32(h * self.ortho_mean(node, self.report_utilize))
-        best = None
+        best = None; us = []
         for i, c in enumerate(self.kids(node)):
-            u = self.report_utilize(c)
+            u = self.report_utilize(c); us.append(u)
             if best is None or u > best[0]: best = (u, i)
         self.want[node] = best[1]
-        self.resolutions.append(('utility', node, best[1]))
+        self.resolutions.append(('utility', node, best[1])); self.utility_cases.append((node, us, best[1]))
         return f32(h * best[0])
     def report_randomize(self, node):
         kd = self.kind(node)
